@@ -268,6 +268,9 @@ class SymDict(dict):
     """dict whose lookup forks on equality of a symbolic key (SChars) with the existing keys"""
 
     def _find(self, k):
+        if isinstance(k, str) and getattr(k, "__sym__", None) is None and TOKL in k:
+            # a plain string that embeds a symbolic one (f-string / concatenation result): outside the string model
+            raise core.Unsupported("dictionary lookup with a formatted string that embeds a symbolic string")
         for kk in dict.keys(self):
             if len(kk) == len(k) and bool(k == kk):
                 return kk
